@@ -83,10 +83,18 @@ fn strip(o: &Out) -> Out {
 }
 
 fn gen_tail(t: &mut Tape) -> Vec<u8> {
-    match t.weighted(&[3, 3, 2]) {
+    match t.weighted(&[60, 60, 40, 3]) {
         0 => vec![],
         1 => t.small_blob(40),
-        _ => gen_record(t).to_bytes(),
+        2 => gen_record(t).to_bytes(),
+        _ => {
+            // the record at the head of a long buffer of further records: 64 KiB and more follow it, with lengths on both sides of the
+            // multiples of 2^16 (a stream reader hands the parser everything it has)
+            let k = t.pick(&[65536usize, 65536, 131072, 262144, 1 << 20]);
+            let n = k - t.below(600).min(k - 1) + t.below(8);
+            let unit = [0x17u8, 3, 3, 0, 3, 0xaa, 0xbb, 0xcc];
+            (0..n).map(|i| unit[i % 8]).collect()
+        }
     }
 }
 
